@@ -1,0 +1,17 @@
+//go:build verif
+// +build verif
+
+// Verification hook. Only compiled with `-tags verif`.
+
+package sqlittle
+
+import (
+	sdb "github.com/alicebob/sqlittle/db"
+)
+
+// VerifWrap gives the high-level API over an already opened low-level
+// database (which can sit on a caller supplied pager, see
+// db.VerifOpenPager).
+func VerifWrap(d *sdb.Database) *DB {
+	return &DB{db: d}
+}
